@@ -1072,6 +1072,7 @@ fn judge(ctx: &Ctx, cfg: &Config, faults: &[Fault], res: &Result<Value, String>,
         match l["state"].as_str() {
             Some("zombie") => r.outcome("err-child-left-unreaped"),
             Some("alive") if l["is_helper"] == true => r.outcome("err-but-program-running"),
+            Some("alive") if l["exited_by_itself"] == true => r.outcome("err-child-exiting-unreaped"),
             _ => {
                 r.outcome("err-child-left-running");
                 r.violation("C13:spawn:err-but-child-left-running", format!("spawn returned Err ({step}) and left {l}"), rp.clone());
@@ -1099,7 +1100,8 @@ fn short_trace(obs: &Value) -> Vec<String> {
 }
 
 /// fault-free run + (optionally) every single deviation (+ pairs)
-fn check_config(sh: &Shard, cfg: &Config, with_faults: bool, with_pairs: bool, r: &mut Report) {
+fn check_config(sh: &Shard, job: &Job, r: &mut Report) {
+    let cfg = &job.cfg;
     let case = replay_of(cfg, &[]);
     set_case(&case.to_string());
     r.eval();
@@ -1116,13 +1118,19 @@ fn check_config(sh: &Shard, cfg: &Config, with_faults: bool, with_pairs: bool, r
         r.bound("base_command_intercepted_calls_child", nc as u64);
         r.bound("base_command_trace", json!(short_trace(&obs)));
     }
+    if *cfg == (Config { stdio: [Sm::Pipe; 3], ..Config::base() }) {
+        r.bound("all_pipes_command_intercepted_calls_parent", np as u64);
+        r.bound("all_pipes_command_intercepted_calls_child", nc as u64);
+        r.bound("all_pipes_command_trace", json!(short_trace(&obs)));
+    }
     r.sample(json!({"cfg": cfg.to_json(), "spawn": obs["spawn"], "err": obs["err"], "wait": obs["wait"], "calls_parent": np, "calls_child": nc,
                     "child_argv": obs["helper"]["argv"].as_array().map(|a| a.iter().map(|s| show_bytes(&unhex(s.as_str().unwrap_or("")))).collect::<Vec<_>>())}));
-    if !with_faults || cfg.natural_failure().is_some() || cfg.drops_both_ids() {
+    if !job.faults || cfg.natural_failure().is_some() || cfg.drops_both_ids() {
         clear_case();
         return;
     }
-    let faults = faults_of_trace(&obs, sh.ctx.thorough);
+    let faults = faults_of_trace(&obs, job.full_menu);
+    let mut firsts: Vec<(Fault, Value)> = Vec::new();
     for f in &faults {
         let fs = [f.clone()];
         set_case(&replay_of(cfg, &fs).to_string());
@@ -1131,15 +1139,15 @@ fn check_config(sh: &Shard, cfg: &Config, with_faults: bool, with_pairs: bool, r
         let res1 = sh.run(cfg, &fs);
         judge(&sh.ctx, cfg, &fs, &res1, r);
         r.outcome(&format!("fault@{}", f.step));
-        if !with_pairs {
-            continue;
+        if let (true, Ok(o1)) = (job.pairs, res1) {
+            firsts.push((f.clone(), o1));
         }
-        // second deviation: any call the run made after the first one (either side) that is not in
-        // the fault-free prefix
-        let Ok(o1) = res1 else { continue };
+    }
+    // second deviation: any call the deviated run made after the first one (later on the same side, or
+    // on the other side once both sides exist)
+    for (f, o1) in &firsts {
         let fork_idx = o1["trace"].as_array().and_then(|a| a.iter().find(|e| e["side"] == "parent" && e["call"] == "fork").and_then(|e| e["idx"].as_u64())).map(|x| x as usize);
-        for f2 in faults_of_trace(&o1, true) {
-            // "after the first deviation": later on the same side, or on the other side once it exists
+        for f2 in faults_of_trace(o1, true) {
             let later = if f2.child == f.child { f2.idx > f.idx } else { fork_idx.map(|k| f2.idx > k && f.idx > k).unwrap_or(false) };
             if !later {
                 continue;
@@ -1161,6 +1169,8 @@ fn check_config(sh: &Shard, cfg: &Config, with_faults: bool, with_pairs: bool, r
 fn judge_pair(ctx: &Ctx, cfg: &Config, faults: &[Fault], res: &Result<Value, String>, r: &mut Report) {
     let rp = replay_of(cfg, faults);
     let step = faults.iter().map(|f| f.step.as_str()).collect::<Vec<_>>().join("+");
+    // the key names the step that must make spawn fail (the first one that cannot be absorbed)
+    let key_step = faults.iter().find(|f| !f.tolerable()).unwrap_or(&faults[0]).step.clone();
     let obs = match res {
         Ok(o) => o,
         Err(e) if e == "hang" => {
@@ -1172,18 +1182,14 @@ fn judge_pair(ctx: &Ctx, cfg: &Config, faults: &[Fault], res: &Result<Value, Str
             return;
         }
     };
-    let hit = obs["fault_hit"].as_u64().unwrap_or(0);
-    if hit & 1 == 0 {
-        r.cap(format!("first planned fault not applied in {rp}"));
-        return;
-    }
-    if hit & 2 == 0 {
-        r.outcome("pair-second-not-reached");
+    // the two sides run concurrently: a deviation on one side can keep the other from being reached
+    if obs["fault_hit"].as_u64().unwrap_or(0) != 3 {
+        r.outcome("pair-not-both-reached");
         return;
     }
     r.outcome("pair-both-applied");
     if obs["returned_in_child"].as_u64().unwrap_or(0) > 0 {
-        r.violation(&format!("C13:spawn:returned-in-child:{}", faults[0].step), format!("two deviations ({step}): spawn() also returned in the forked child {}", obs["fork_pid"]), rp.clone());
+        r.violation(&format!("C13:spawn:returned-in-child:{key_step}"), format!("two deviations ({step}): spawn() also returned in the forked child {}", obs["fork_pid"]), rp.clone());
     }
     if obs["spawn"] == "panic" {
         r.violation("C13:spawn:panic", format!("two deviations ({step}): {}", obs["panic"]), rp);
@@ -1192,7 +1198,7 @@ fn judge_pair(ctx: &Ctx, cfg: &Config, faults: &[Fault], res: &Result<Value, Str
     let essential: Vec<&Fault> = faults.iter().filter(|f| !f.tolerable()).collect();
     if obs["spawn"] == "ok" {
         if !essential.is_empty() {
-            r.violation(&format!("C13:spawn:ok-despite-failed-step:{}", essential[0].step), format!("two deviations ({step}): spawn returned Ok"), rp);
+            r.violation(&format!("C13:spawn:ok-despite-failed-step:{key_step}"), format!("two deviations ({step}): spawn returned Ok"), rp);
         } else if obs["returned_in_child"].as_u64().unwrap_or(0) == 0 {
             judge_ok(ctx, cfg, obs, r, &rp);
         }
@@ -1200,13 +1206,13 @@ fn judge_pair(ctx: &Ctx, cfg: &Config, faults: &[Fault], res: &Result<Value, Str
     }
     let code = obs["err"]["code"].as_i64();
     if !faults.iter().any(|f| Some(f.errno as i64) == code) {
-        let first = essential.first().map(|f| f.step.clone()).unwrap_or_else(|| faults[0].step.clone());
-        r.violation(&format!("C13:spawn:wrong-errno:{first}"), format!("two deviations ({step}, errnos {:?}): the error is {}", faults.iter().map(|f| f.errno).collect::<Vec<_>>(), obs["err"]), rp.clone());
+        r.violation(&format!("C13:spawn:wrong-errno:{key_step}"), format!("two deviations ({step}, errnos {:?}): the error is {}", faults.iter().map(|f| f.errno).collect::<Vec<_>>(), obs["err"]), rp.clone());
     }
     for l in obs["left"].as_array().cloned().unwrap_or_default() {
         match l["state"].as_str() {
             Some("zombie") => r.outcome("pair-err-child-left-unreaped"),
             Some("alive") if l["is_helper"] == true => r.outcome("pair-err-but-program-running"),
+            Some("alive") if l["exited_by_itself"] == true => r.outcome("pair-err-child-exiting-unreaped"),
             _ => r.violation("C13:spawn:err-but-child-left-running", format!("two deviations ({step}): spawn returned Err and left {l}"), rp.clone()),
         }
     }
@@ -1275,7 +1281,7 @@ fn stdio_triples() -> Vec<Config> {
     v
 }
 
-/// thorough: args x env x cwd x ids x closure x all stdio triples
+/// args x env x cwd x ids x closure x all stdio triples (quick: fault-free only; thorough: with deviations)
 fn product() -> Vec<Config> {
     let args: Vec<Vec<Vec<u8>>> = vec![vec![], vec![b(b"--exit=7")], vec![b(b"--exit=3"), b(b"")]];
     let envs: Vec<Option<Vec<Vec<u8>>>> = vec![None, Some(vec![b(b"A=1")]), Some(vec![b(b"A=1"), b(b"B=two words")])];
@@ -1310,34 +1316,34 @@ fn product() -> Vec<Config> {
 struct Job {
     cfg: Config,
     faults: bool,
+    /// every errno of each call's menu (else the first one or two)
+    full_menu: bool,
     pairs: bool,
 }
 
 fn jobs(ctx: &Ctx) -> Vec<Job> {
     let mut seen: HashSet<String> = HashSet::new();
     let mut out = Vec::new();
-    let mut add = |cfg: Config, faults: bool, pairs: bool, out: &mut Vec<Job>| {
+    let mut add = |cfg: Config, faults: bool, full_menu: bool, pairs: bool, out: &mut Vec<Job>| {
         if seen.insert(cfg.to_json().to_string()) {
-            out.push(Job { cfg, faults, pairs });
+            out.push(Job { cfg, faults, full_menu, pairs });
         }
     };
+    let t = ctx.thorough;
     let piped = Config { stdio: [Sm::Pipe; 3], ..Config::base() };
     for c in single_factor(ctx) {
-        let pairs = ctx.thorough && c == Config::base();
-        add(c, true, pairs, &mut out);
-    }
-    if ctx.thorough {
-        add(piped, true, true, &mut out);
+        add(c, true, t, false, &mut out);
     }
     for c in stdio_triples() {
-        add(c, ctx.thorough, false, &mut out);
+        add(c, true, t, false, &mut out);
     }
-    if ctx.thorough {
-        let rep = [[Sm::Unset; 3], [Sm::Pipe; 3], [Sm::Null, Sm::Raw, Sm::Pipe]];
-        for c in product() {
-            let f = rep.contains(&c.stdio);
-            add(c, f, false, &mut out);
-        }
+    for c in product() {
+        add(c, t, false, false, &mut out);
+    }
+    if t {
+        // pairs last, so that the single-deviation cases are the replay artefacts
+        out.push(Job { cfg: Config::base(), faults: true, full_menu: true, pairs: true });
+        out.push(Job { cfg: piped, faults: true, full_menu: true, pairs: true });
     }
     out
 }
@@ -1346,37 +1352,26 @@ fn c13(args: &Args) -> Report {
     let t0 = now();
     let ctx = make_ctx(args.thorough);
     let all = jobs(&ctx);
-    let n_cfg = all.len();
-    let n_fault_cfg = all.iter().filter(|j| j.faults).count();
-    // shards: fault-enumerating configurations are heavy (tens of runs), the others one run each
+    let n_cfg = all.iter().filter(|j| !j.pairs).count();
+    let n_fault_cfg = all.iter().filter(|j| j.faults && !j.pairs && j.cfg.natural_failure().is_none() && !j.cfg.drops_both_ids()).count();
+    // shards: consecutive configurations in batches (merge order = enumeration order, simplest first)
     let mut items: Vec<Isolated> = Vec::new();
-    let mut light: Vec<Job> = Vec::new();
-    let mut heavy: Vec<Job> = Vec::new();
-    for j in all {
-        if j.faults {
-            heavy.push(j);
-        } else {
-            light.push(j);
-        }
-    }
+    let per = if ctx.thorough { 24 } else { 48 };
     let mut batches: Vec<Vec<Job>> = Vec::new();
-    let per_heavy = if ctx.thorough { 4 } else { 1 };
-    for c in heavy.chunks(per_heavy) {
+    let (pairs, plain): (Vec<Job>, Vec<Job>) = all.into_iter().partition(|j| j.pairs);
+    for c in plain.chunks(per) {
         batches.push(c.to_vec());
     }
-    let per_light = (light.len() / (4 * n_workers()).max(1)).clamp(8, 200);
-    for c in light.chunks(per_light.max(1)) {
-        batches.push(c.to_vec());
+    for j in pairs {
+        batches.push(vec![j]);
     }
-    // pairs are the longest jobs: start them first
-    batches.sort_by_key(|bt| !bt.iter().any(|j| j.pairs));
     for (i, batch) in batches.into_iter().enumerate() {
         let ctx = ctx.clone();
         items.push(isolated(format!("s{i}"), move || {
             let mut r = Report::new();
             let sh = Shard::new(&ctx, &format!("s{i}"));
             for j in &batch {
-                check_config(&sh, &j.cfg, j.faults, j.pairs, &mut r);
+                check_config(&sh, j, &mut r);
             }
             r
         }));
@@ -1390,7 +1385,7 @@ fn c13(args: &Args) -> Report {
     r.bound("configurations", n_cfg as u64);
     r.bound("configurations_with_fault_enumeration", n_fault_cfg as u64);
     r.bound("shards", n_shards as u64);
-    r.bound("deviations", if args.thorough { "every single call x full errno menu; pairs (second deviation after the first, full menu) for the base command and the all-pipes command" } else { "every single call x 1-2 errnos" });
+    r.bound("deviations", if args.thorough { "every single call of parent and child x full errno menu for the single-factor configurations and the 125 stdio triples, x 1-2 errnos for the product; pairs (second deviation after the first, full menu) for the base command and the all-pipes command" } else { "every single call of parent and child x 1-2 errnos, for every configuration" });
     r.bound("args", "0..2 arguments incl. empty string and non-UTF-8 bytes");
     r.bound("env", "nothing given, envs(0..2 entries) (thorough: entry without '=', empty value, non-UTF-8, duplicate key, empty entry)");
     r.bound("wall_s", (t0.elapsed().as_millis() as u64) as f64 / 1000.0);
